@@ -31,6 +31,13 @@ def main():
             if r["time"] > 3: print("   SLOW %.1fs" % r["time"], o.name, r["solver"], r["reason"][:80])
         for o, r in bad[:12]:
             print("   OPEN", o.name, "L%d" % o.line, r["verdict"], r["solver"], o.text[:90], r["reason"][:100])
+            import os, re as _re
+            if os.environ.get("VF_DUMP_OPEN"):
+                fn = os.path.join(os.environ["VF_DUMP_OPEN"], _re.sub(r"[^A-Za-z0-9_.]+", "_", o.name) + "_p%d.txt" % o.path)
+                with open(fn, "w") as fh:
+                    for i, a in enumerate(o.assumptions):
+                        fh.write("%d %s\n" % (i, _re.sub(r"\s+", " ", str(a))))
+                    fh.write("GOAL %s\n" % _re.sub(r"\s+", " ", str(o.goal)))
             if verbose and r.get("model"):
                 print("      model:", {k: v for k, v in list(r["model"].items())[:30]})
     for l in R.lemmas.values():
